@@ -9,6 +9,8 @@ import (
 	"context"
 	"database/sql"
 	"database/sql/driver"
+
+	"github.com/go-sql-driver/mysql"
 	"errors"
 	"fmt"
 	"os"
@@ -331,7 +333,7 @@ func c14Run(s *sim.Sim, p *sim.Params) {
 	}
 	backendKind := s.Choose(sim.SWork, 5)
 	target := s.Choose(sim.SWork, ntx) // the transaction that receives the fault
-	kinds := []string{"none", "cb-error", "cb-error-canceled", "cb-error-deadline", "cb-error-wrapped", "cb-error-txdone", "cb-error-badconn", "cb-panic", "ctx-cancel", "deadline", "exec", "badconn", "begin", "commit-before", "commit-after", "rollback", "nested-deadline"}
+	kinds := []string{"none", "cb-error", "cb-error-lockwait", "cb-error-deadlock", "cb-error-canceled", "cb-error-deadline", "cb-error-wrapped", "cb-error-txdone", "cb-error-badconn", "cb-panic", "ctx-cancel", "deadline", "exec", "badconn", "begin", "commit-before", "commit-after", "rollback", "nested-deadline"}
 	if p.Tier != "thorough" {
 		// quick: a seeded subset of the kinds, every position for each
 		var sub []string
@@ -451,10 +453,15 @@ func c14execute(s *sim.Sim, dir string, n int, backendKind int, txns []c14txn, t
 			cbErr = sql.ErrTxDone
 		case "cb-error-badconn":
 			cbErr = driver.ErrBadConn
+		case "cb-error-lockwait":
+			cbErr = &mysql.MySQLError{Number: 1205, Message: "Lock wait timeout exceeded; try restarting transaction"}
+		case "cb-error-deadlock":
+			cbErr = fmt.Errorf("saving order: %w", &mysql.MySQLError{Number: 1213, Message: "Deadlock found when trying to get lock; try restarting transaction"})
 		}
 		isCbErr := strings.HasPrefix(fault.kind, "cb-error")
 		var fnReturned error
 		fnRan, fnCompleted, panicRaised := false, false, false
+		invocations := 0
 		run := func() (err error, panicked interface{}) {
 			defer func() {
 				if r := recover(); r != nil {
@@ -464,6 +471,22 @@ func c14execute(s *sim.Sim, dir string, n int, backendKind int, txns []c14txn, t
 			err = b.txfn(ctx, func(tx *sql.Tx) error {
 				fnRan = true
 				_ = fnRan
+				// the callback's trouble is transient: were it invoked again (an implementation that
+				// retries), it would run through. Each invocation starts from the table as it was.
+				invocations++
+				fault := fault
+				if invocations > 1 {
+					fault = c14fault{kind: "none"}
+					isCbErr = false
+					for k := range after {
+						delete(after, k)
+					}
+					for k, v := range before {
+						after[k] = v
+					}
+					fnReturned, fnCompleted = nil, false
+					s.Probe("callback-invoked-again")
+				}
 				for i, st := range t.stmts {
 					if i == fault.pos {
 						if isCbErr {
@@ -633,6 +656,18 @@ func c14bulk(s *sim.Sim, dir string, backendKind int, sample *[]string) {
 		}
 		vals = append(vals, []interface{}{k, i})
 	}
+	// a row of the wrong width (one value short, or one too many) somewhere in the batch: the
+	// statement cannot be built for it, so nothing may be inserted
+	badWidth := -1
+	if dupAt == nrows && s.Choose(sim.SWork, 4) == 0 {
+		badWidth = s.Choose(sim.SWork, nrows)
+		if s.Choose(sim.SWork, 2) == 0 {
+			vals[badWidth] = vals[badWidth][:1]
+		} else {
+			vals[badWidth] = append(vals[badWidth], "extra")
+		}
+		s.Probe("bulk-row-of-wrong-width")
+	}
 	before, _ := c14read(b.db)
 	ctx, cancel := context.WithTimeout(context.Background(), 5*time.Second)
 	err := b.bulk(ctx, "t", []string{"k", "v"}, vals)
@@ -641,9 +676,8 @@ func c14bulk(s *sim.Sim, dir string, backendKind int, sample *[]string) {
 	if rerr != nil {
 		s.Fail("oracle", "connection-unusable:"+b.name, "after BulkInsert: "+rerr.Error())
 	}
-	want := before.clone()
-	for _, r := range vals {
-		want[r[0].(string)] = r[1].(int)
+	if badWidth >= 0 && err == nil {
+		s.Fail("oracle", "bulk-partial:"+b.name, fmt.Sprintf("BulkInsert of %d rows of which row %d has %d values for 2 columns returned nil; the table went from %d to %d rows", nrows, badWidth, len(vals[badWidth]), len(before), len(got)))
 	}
 	*sample = append(*sample, fmt.Sprintf("%s BulkInsert %d rows dupAt=%d pre=%v -> err=%v rows=%d", b.name, nrows, dupAt, pre, err, len(got)))
 	if err != nil {
@@ -711,6 +745,122 @@ func c14orm(s *sim.Sim, dir string, sample *[]string) {
 		s.Fail("oracle", "committed-effects-lost:orm", fmt.Sprintf("ORM.Transaction returned nil but %d of %d rows are in the table", cnt, n))
 	}
 	c14ormNested(s, dir, sample)
+	c14ormMix(s, dir, sample)
+}
+
+// c14ormMix: an ORM value with a history — creates, updates and deletes outside any transaction
+// first — then a transaction whose callback creates, updates and deletes through the same ORM and
+// returns normally or fails at the end. The table must equal the model: all of the callback's
+// effects, or none.
+func c14ormMix(s *sim.Sim, dir string, sample *[]string) {
+	dsn := filepath.Join(dir, "ormmix.sqlite")
+	db, err := sql.Open("sqlitefault", dsn)
+	if err != nil {
+		s.InfraFail(err.Error())
+	}
+	defer db.Close()
+	if _, err := db.Exec("CREATE TABLE IF NOT EXISTS items (id INTEGER PRIMARY KEY, v INTEGER)"); err != nil {
+		s.InfraFail(err.Error())
+	}
+	orm := NewORM(&PostgresDB{config: &Config{}, db: db}, "items")
+	model := map[int]int{}
+	nextID, nextV := 1, 100
+	var opErr error
+	var log []string
+	apply := func(ctx context.Context, m map[int]int) {
+		switch k := s.Choose(sim.SWork, 4); {
+		case k < 2 || len(m) == 0:
+			id := nextID
+			nextID++
+			nextV++
+			if _, err := orm.Create(ctx, map[string]interface{}{"id": id, "v": nextV}); err != nil {
+				opErr = err
+				return
+			}
+			m[id] = nextV
+			log = append(log, fmt.Sprintf("create(%d)", id))
+		default:
+			var ids []int
+			for id := range m {
+				ids = append(ids, id)
+			}
+			sort.Ints(ids)
+			id := ids[s.Choose(sim.SWork, len(ids))]
+			if k == 2 {
+				nextV++
+				if _, err := orm.Update(ctx, id, map[string]interface{}{"v": nextV}); err != nil {
+					opErr = err
+					return
+				}
+				m[id] = nextV
+				log = append(log, fmt.Sprintf("update(%d)", id))
+			} else {
+				if err := orm.Delete(ctx, id); err != nil {
+					opErr = err
+					return
+				}
+				delete(m, id)
+				log = append(log, fmt.Sprintf("delete(%d)", id))
+			}
+		}
+	}
+	ctx, cancel := context.WithTimeout(context.Background(), 30*time.Second)
+	defer cancel()
+	for i := 2 + s.Choose(sim.SWork, 5); i > 0 && opErr == nil; i-- {
+		apply(ctx, model)
+	}
+	log = append(log, "BEGIN")
+	inTx := map[int]int{}
+	for k, v := range model {
+		inTx[k] = v
+	}
+	fail := s.Choose(sim.SWork, 2) == 1
+	txErr := orm.Transaction(ctx, func(txCtx context.Context) error {
+		for i := 1 + s.Choose(sim.SWork, 4); i > 0 && opErr == nil; i-- {
+			apply(txCtx, inTx)
+		}
+		if opErr != nil {
+			return opErr
+		}
+		if fail {
+			return errors.New("callback gives up")
+		}
+		return nil
+	})
+	*sample = append(*sample, fmt.Sprintf("ORM history %v fail=%v -> err=%v opErr=%v", log, fail, txErr, opErr))
+	if opErr != nil {
+		// the ORM speaks PostgreSQL; where SQLite refuses a statement this sub-check is not exercised
+		s.Probe("orm-mix-not-exercised")
+		return
+	}
+	s.Probe("orm-mix-exercised")
+	want := model
+	if txErr == nil {
+		if fail {
+			s.Fail("oracle", "error-swallowed:orm-mix", "the callback returned an error but ORM.Transaction returned nil")
+		}
+		want = inTx
+	}
+	got := map[int]int{}
+	rctx, rcancel := context.WithTimeout(context.Background(), 5*time.Second)
+	defer rcancel()
+	rows, err := db.QueryContext(rctx, "SELECT id, v FROM items")
+	if err != nil {
+		s.Fail("oracle", "connection-unusable:orm-mix", "after ORM.Transaction: "+err.Error())
+	}
+	for rows.Next() {
+		var id, v int
+		rows.Scan(&id, &v)
+		got[id] = v
+	}
+	rows.Close()
+	if fmt.Sprint(got) != fmt.Sprint(want) {
+		site := "effects-survived-rollback:orm-mix"
+		if txErr == nil {
+			site = "committed-effects-lost:orm-mix"
+		}
+		s.Fail("oracle", site, fmt.Sprintf("history %v; ORM.Transaction returned %v; the table is %v, it must be %v", log, txErr, got, want))
+	}
 }
 
 // c14ormNested: a transaction opened inside another one's callback. The inner callback writes and
